@@ -2,7 +2,7 @@
     Python harness.  A case is a program: a list of operations over graph registers, each operation a
     [list Z]; running it yields one [list Z] per operation.  All decoding/encoding is done here, in
     Gallina, so the OCaml driver is a dumb pipe. *)
-From DynVerif Require Import Base Graph Derived.
+From DynVerif Require Import Base Graph Derived Annotate Paths.
 
 Definition oz (has x : Z) : option Z := if has =? 0 then None else Some x.
 Definition zb (b : bool) : Z := if b then 1 else 0.
@@ -40,6 +40,37 @@ Fixpoint nodup_evs (l : list event) : bool :=
   | [] => true
   | (t, k, op) :: r => negb (has_event t k op r) && nodup_evs r
   end.
+
+(** paths: n, then per path: len, (u v t)* *)
+Definition enc_path (p : path) : list Z :=
+  Z.of_nat (length p) :: flat_map (fun h => [fst (fst h); snd (fst h); snd h]) p.
+Definition enc_paths (l : list path) : list Z := Z.of_nat (length l) :: flat_map enc_path l.
+Definition enc_occ (root : Z) (o : occ) : list Z :=
+  match o with Root => [root; -1000000] | Occ n t => [n; t] end.
+Definition enc_dag (root : Z) (d : dag) : list Z :=
+  0 :: Z.of_nat (length (d_edges d)) :: flat_map (fun e => enc_occ root (fst e) ++ enc_occ root (snd e)) (d_edges d)
+  ++ Z.of_nat (length (d_sources d)) :: flat_map (enc_occ root) (d_sources d)
+  ++ Z.of_nat (length (d_targets d)) :: flat_map (enc_occ root) (d_targets d).
+Fixpoint take_hops (n : nat) (l : list Z) : path * list Z :=
+  match n with
+  | O => ([], l)
+  | S m => match l with
+           | a :: b :: t :: r => let '(p, rest) := take_hops m r in ((a, b, t) :: p, rest)
+           | _ => ([], [])
+           end
+  end.
+(** list of paths: (len, hops...)* ; fuel bounds the number of paths *)
+Fixpoint dec_paths (fuel : nat) (l : list Z) : list path :=
+  match fuel with
+  | O => []
+  | S f => match l with
+           | [] => []
+           | n :: r => let '(p, rest) := take_hops (Z.to_nat n) r in p :: dec_paths f rest
+           end
+  end.
+Definition enc_annotated (a : annotated) : list Z :=
+  enc_paths (a_shortest a) ++ enc_paths (a_fastest a) ++ enc_paths (a_foremost a)
+  ++ enc_paths (a_fastest_shortest a) ++ enc_paths (a_shortest_fastest a).
 
 Definition regs := list graph.
 Definition getr (rs : regs) (r : Z) : graph := nth (Z.to_nat r) rs (empty_graph false true).
@@ -132,6 +163,24 @@ Definition step_op (rs : regs) (op : list Z) : regs * list Z :=
       let '(og, o) := to_directed (getr rs src) in (set_opt rs dst og, [out_code o])
   | 32 :: src :: dst :: recip :: _ =>
       let '(og, o) := to_undirected (getr rs src) (bz recip) in (set_opt rs dst og, [out_code o])
+  (* --- paths --- *)
+  | 60 :: r :: u :: hv :: v :: hs :: s :: he :: e :: _ =>
+      (rs, match temporal_dag (getr rs r) u (oz hv v) (oz hs s) (oz he e) with
+           | DagValueError => [-1]
+           | DagOk d => enc_dag u d
+           end)
+  | 61 :: r :: u :: hv :: v :: hs :: s :: he :: e :: _ =>
+      (rs, match time_respecting_paths (getr rs r) u (oz hv v) (oz hs s) (oz he e) with
+           | PathsValueError => [-1]
+           | PathsOk l => enc_paths l
+           end)
+  | 62 :: r :: hs :: s :: he :: e :: hm :: m :: _ =>
+      (rs, match all_time_respecting_paths (getr rs r) (oz hs s) (oz he e) (oz hm m) with
+           | None => [-1]
+           | Some l => enc_paths (flat_map snd l)
+           end)
+  | 63 :: l => (rs, enc_annotated (annotate_paths (dec_paths (S (length l)) l)))
+  | 64 :: l => (rs, flat_pairs (compact_timeslot l))
   | _ => (rs, [-999])
   end.
 
